@@ -109,6 +109,9 @@ pub fn check(rep: &Report) {
     let total = items.len() + n_gen + n_scen + n_imp + n_cli;
     let have_cli = std::path::Path::new(&format!("{}/harness/target/repo-cli/debug/quiv", crate::report::verif_root())).exists();
     if !have_cli { rep.inconclusive(json!({"why": "quiv binary not built; CLI family skipped"})); }
+    // every run in a job is capped by scheduler actions; a job that still runs for ten minutes has left the program's own
+    // behaviour (the as-compiled run finished within the cap): report it instead of hanging
+    crate::pool::set_hard_limit(600, "C10");
     let watch = crate::pool::Watch::new("C10", 60);
     crate::pool::run_indexed(total, 256, |j| {
         let mut rng = Rng::derive(rep.seed, "C10", 0, j as u64);
